@@ -710,7 +710,13 @@ func (e *execEngine) buildTx(n *node, t []string) (pb.Transaction, bool, error) 
 			if strings.HasPrefix(t[8], "msig") {
 				// an IBTP relayed by another BitXHub: the proof is a BxhProof with signatures of that hub's validators
 				// (val-1, val-2, ...) over the IBTP and the status it reports
-				k, err := strconv.Atoi(t[8][4:])
+				// msigd<k>: k signatures, all of them by val-1 (one validator signing k times)
+				dup := strings.HasPrefix(t[8], "msigd")
+				num := t[8][4:]
+				if dup {
+					num = t[8][5:]
+				}
+				k, err := strconv.Atoi(num)
 				if err != nil {
 					return nil, false, fmt.Errorf("bad proof kind")
 				}
@@ -729,7 +735,11 @@ func (e *execEngine) buildTx(n *node, t []string) (pb.Transaction, bool, error) 
 				}
 				bp := &pb.BxhProof{TxStatus: st}
 				for i := 1; i <= k; i++ {
-					sg, err := acct(fmt.Sprintf("val-%d", i)).priv.Sign(digest[:])
+					signer := i
+					if dup {
+						signer = 1
+					}
+					sg, err := acct(fmt.Sprintf("val-%d", signer)).priv.Sign(digest[:])
 					if err != nil {
 						return nil, false, err
 					}
